@@ -101,7 +101,13 @@ Qed.
 Print Assumptions C06_guarded.
 
 (* Array(<length type>, T), stated honestly: not decode (encode v) = v (no prefix is written), but the
-   documented decode — count in the length type, then the elements — inverts prefix ++ encoding. *)
+   documented decode — count in the length type, then the elements — inverts prefix ++ encoding.
+   The count here is the one that was written, length l (<= count_limit), and the element type is
+   inside wf_ty (so it contains no further length-prefixed array): the loop runs length l times even
+   over an element type that occupies no bytes.  A count read from FOREIGN bytes over such an
+   element type (the code then loops `count` times over nothing; C08's
+   dec:hang:length-prefixed-array-over-zero-width-element, known_findings/C06.jsonl class
+   Array(length-type):zero-size-element-count-loop) is outside these hypotheses. *)
 Theorem C06_length_prefixed :
   forall inst lsg lw e l rest,
     (0 < lw)%nat -> is_bits e = false -> wf_ty (TArrFixed (length l) e) = true ->
